@@ -147,7 +147,7 @@ bool FeatureChecker::isRateDisallowedInSymbolic(const expression_t& e)
         return false;
     }
 
-    if (e.get_kind() == Constants::AND) {
+    if (e.get_kind() == Constants::AND || e.get_kind() == Constants::OR) {  // a rate below a disjunction is set as well
         for (size_t i = 0; i < e.get_size(); ++i) {
             if (isRateDisallowedInSymbolic(e.get(i)))
                 return true;
